@@ -26,7 +26,7 @@ enum { W_WRITE = 0, W_READ, W_RDWR, W_COUNT } ;
 static const char *wl_name [] = { "write", "read", "rdwr" } ;
 
 struct Cell { long fault_at ; int kind ; bool persistent ; } ;
-struct Group { int format ; int ch ; int wl ; } ;
+struct Group { int format ; int ch ; int wl ; int wt ; } ;	// wt: sample type of the typed transfers (0 short, 1 int, 2 float, 3 double)
 
 static std::set<int> open_fds ()
 {	std::set<int> s ; DIR *d = opendir ("/proc/self/fd") ; if (!d) return s ; int self = dirfd (d) ;
@@ -64,18 +64,26 @@ static std::string run_workload (const Group &g, MemFile &mf, long long frames, 
 	}
 	std::string bad ;
 	auto snap = [&] () { if (snapshot_at_fault && snapshot_at_fault->empty () && mf.fault_fired && !fired_before) *snapshot_at_fault = mf.data ; } ;
+	int wt = g.wt, wts = stype_size (wt) ;
+	const Codec *wcd = codec_of (g.format) ; bool wgran = mode == SFM_WRITE && is_granular (g.format) && wcd && wcd->granular && wcd->bytes > 0 ; long long wbw = wgran ? (long long) wcd->bytes * ch : 1 ;
 	auto do_write = [&] (long long fr)
-	{	std::vector<short> b ((size_t) fr * ch) ; for (size_t i = 0 ; i < b.size () ; i++) b [i] = (short) (i * 131 + fr) ;
-		sf_count_t r0, w0, r1, w1 ; sf_verif_get_positions (f, &r0, &w0) ;
-		sf_count_t w = sf_writef_short (f, b.data (), fr) ;
+	{	std::vector<uint8_t> b ((size_t) fr * ch * wts) ;
+		for (size_t i = 0 ; i < (size_t) fr * ch ; i++)
+		{	short v = (short) (i * 131 + fr) ;
+			switch (wt) { case T_SHORT : ((short *) b.data ()) [i] = v ; break ; case T_INT : ((int *) b.data ()) [i] = (int) ((unsigned) v << 16) ; break ; case T_FLOAT : ((float *) b.data ()) [i] = v / 32768.0f ; break ; default : ((double *) b.data ()) [i] = v / 32768.0 ; }
+		}
+		sf_count_t r0, w0, r1, w1 ; sf_verif_get_positions (f, &r0, &w0) ; long long acc0 = mf.bytes_written ;
+		sf_count_t w = sf_writef_t (f, wt, b.data (), fr) ;
 		sf_verif_get_positions (f, &r1, &w1) ; snap () ;
 		if (w < 0 || w > fr) bad = "write_count_out_of_range|returned " + std::to_string ((long long) w) + " of " + std::to_string (fr) ;
 		else if (w1 - w0 != w) bad = "write_position_ne_count|returned " + std::to_string ((long long) w) + " position moved " + std::to_string ((long long) (w1 - w0)) ;
+		// sample-granular encodings store every frame as bw bytes at once: the call cannot have written more frames than the I/O layer took bytes for
+		else if (wgran && w * wbw > mf.bytes_written - acc0) bad = "write_count_exceeds_accepted_bytes|returned " + std::to_string ((long long) w) + " frames of " + std::to_string (wbw) + " bytes, the I/O layer accepted " + std::to_string (mf.bytes_written - acc0) + " bytes during the call" ;
 	} ;
 	auto do_read = [&] (long long fr)
-	{	std::vector<short> b ((size_t) fr * ch, 0x5a5a) ;
+	{	std::vector<uint8_t> b ((size_t) fr * ch * wts, 0x5a) ;
 		sf_count_t r0, w0, r1, w1 ; sf_verif_get_positions (f, &r0, &w0) ;
-		sf_count_t r = sf_readf_short (f, b.data (), fr) ;
+		sf_count_t r = sf_readf_t (f, wt, b.data (), fr) ;
 		sf_verif_get_positions (f, &r1, &w1) ; snap () ;
 		if (r < 0 || r > fr) bad = "read_count_out_of_range|returned " + std::to_string ((long long) r) + " of " + std::to_string (fr) ;
 		else if (r1 - r0 != r && !(r0 + r > r1 && r1 >= 0 && r1 == info.frames)) bad = "read_position_ne_count|returned " + std::to_string ((long long) r) + " position moved " + std::to_string ((long long) (r1 - r0)) ;
@@ -128,7 +136,7 @@ static std::vector<Cell> cells_for (long K, bool quick, long long salt)
 }
 
 static Case cell_case (const Group &g, const Cell &c, long K)
-{	Case k ; k.set ("fmt", format_str (g.format)) ; k.seti ("format", g.format) ; k.seti ("ch", g.ch) ; k.set ("workload", wl_name [g.wl]) ; k.seti ("wl", g.wl) ;
+{	Case k ; k.set ("fmt", format_str (g.format)) ; k.seti ("format", g.format) ; k.seti ("ch", g.ch) ; k.set ("workload", wl_name [g.wl]) ; k.seti ("wl", g.wl) ; k.seti ("wt", g.wt) ;
 	k.seti ("fault_at", c.fault_at) ; k.set ("fault", fault_kind_name [c.kind]) ; k.seti ("kind_id", c.kind) ; k.seti ("persistent", c.persistent) ; k.seti ("callbacks_fault_free", K) ;
 	k.set ("container", major_name (g.format)) ; k.set ("codec", codec_of (g.format)->name) ;
 	return k ;
@@ -199,7 +207,7 @@ static long run_group_child (const Group &g, const std::vector<Cell> &cells, lon
 }
 
 static Result replay_cell (const Case &c)
-{	Group g { (int) c.geti ("format"), (int) c.geti ("ch"), (int) c.geti ("wl") } ; Cell cell { (long) c.geti ("fault_at"), (int) c.geti ("kind_id"), c.geti ("persistent") != 0 } ;
+{	Group g { (int) c.geti ("format"), (int) c.geti ("ch"), (int) c.geti ("wl"), (int) c.geti ("wt", 0) } ; Cell cell { (long) c.geti ("fault_at"), (int) c.geti ("kind_id"), c.geti ("persistent") != 0 } ;
 	long long frames = 4 * (nominal_block (g.format, g.ch, 8000) > 1 ? nominal_block (g.format, g.ch, 8000) : 500) ;
 	std::vector<uint8_t> valid = g.wl == W_WRITE ? std::vector<uint8_t> () : valid_file (g, frames) ;
 	MemFile ffm ; if (g.wl != W_WRITE) ffm.data = valid ; size_t hsz = 0 ; run_workload (g, ffm, frames, &hsz, nullptr) ;
@@ -221,7 +229,7 @@ int main (int argc, char **argv)
 	{	int fmt = rep_formats [i] ; int ch = channels_for (fmt) ; if (!fmt_check (fmt, ch)) continue ;
 		for (int wl = 0 ; wl < W_COUNT ; wl++)
 		{	if (wl == W_RDWR && !is_granular (fmt)) continue ;
-			groups.push_back ({ fmt, ch, wl }) ;
+			for (int wt = 0 ; wt < 4 ; wt++) groups.push_back ({ fmt, ch, wl, wt }) ;
 		}
 	}
 	bool failed = false ; long gi = 0 ;
